@@ -1,37 +1,48 @@
 ------------------------------- MODULE ZnExport -------------------------------
 (* C15, export facet: "exactly the module's methods and types (all, or the listed ones) become available, as
-   read-only names".  One import statement of one module (or registered library):
+   read-only names".  One or two import statements of ONE module (or registered library) in one file:
        导入“M”                 every exported name (methods and types of M) is declared in the importer, constant
        导入“M”之 n1、n2、…     exactly the listed names that M exports - in whatever ORDER they are written
-   The statement is executed name by name (action Declare, one step per listed name); the set of names visible in
-   the importer afterwards is compared with the independent set characterisation VisibleExact.
-   Names the module does not export (a module-level variable, a name that does not exist) may be listed: the manual
-   does not say whether that is an error or ignored - such lists are flagged soft (either an error, or the rest of
-   the list takes effect). *)
+   The statements are executed name by name (action Declare, one step per listed name); the set of names visible in
+   the importer afterwards is compared with the independent set characterisation VisibleExact.  A second statement
+   adds its names to those of the first (导入“M”之甲 and later 导入“M”之乙 make both available).
+   Not demanded (flagged soft: either an error, or the rest takes effect): names the module does not export (a
+   module-level variable, a name that does not exist) in a list; a name imported TWICE (by both statements) - that
+   is a redeclaration in today's implementation and the manual is silent. *)
 EXTENDS Integers, Sequences, FiniteSets, TLC, Json
 CONSTANTS Exported,      \* names of the module's methods and types
           Others,        \* a module-level variable of the module, a name that does not exist
-          MaxLen
-VARIABLES mode, sel, i, visible, soft
-vars == <<mode, sel, i, visible, soft>>
+          MaxLen,        \* longest list of a single statement
+          MaxLen2        \* longest lists when there are two statements (0 = single statements only)
+VARIABLES stmts, si, i, visible, soft
+vars == <<stmts, si, i, visible, soft>>
 Names == Exported \cup Others
-Lists == {s \in UNION {[1..n -> Names] : n \in 1..MaxLen} : \A p, q \in DOMAIN s : p # q => s[p] # s[q]}
-Init == /\ \/ mode = "all" /\ sel = <<>>
-           \/ mode = "sel" /\ sel \in Lists
-        /\ i = 1 /\ visible = {} /\ soft = FALSE
+ListsUpTo(n) == {s \in UNION {[1..k -> Names] : k \in 1..n} : \A p, q \in DOMAIN s : p # q => s[p] # s[q]}
+All == [mode |-> "all", sel |-> <<>>]
+Sel(s) == [mode |-> "sel", sel |-> s]
+Stmt1 == {All} \cup {Sel(s) : s \in ListsUpTo(MaxLen)}
+Stmt2 == IF MaxLen2 = 0 THEN {} ELSE {All} \cup {Sel(s) : s \in ListsUpTo(MaxLen2)}
+Init == /\ stmts \in {<<a>> : a \in Stmt1} \cup {<<a, b>> : a \in Stmt2, b \in Stmt2}
+        /\ si = 1 /\ i = 1 /\ visible = {} /\ soft = FALSE
+Cur == stmts[si]
 \* import everything: one step
-DeclareAll == mode = "all" /\ i = 1 /\ visible' = Exported /\ i' = 2 /\ UNCHANGED <<mode, sel, soft>>
+DeclareAll == /\ si <= Len(stmts) /\ Cur.mode = "all"
+              /\ soft' = (soft \/ visible \cap Exported # {})
+              /\ visible' = visible \cup Exported /\ si' = si + 1 /\ i' = 1 /\ UNCHANGED stmts
 \* selective import: one listed name per step
-Declare == /\ mode = "sel" /\ i <= Len(sel)
-           /\ IF sel[i] \in Exported THEN visible' = visible \cup {sel[i]} /\ UNCHANGED soft
+Declare == /\ si <= Len(stmts) /\ Cur.mode = "sel" /\ i <= Len(Cur.sel)
+           /\ IF Cur.sel[i] \in Exported THEN visible' = visible \cup {Cur.sel[i]} /\ soft' = (soft \/ Cur.sel[i] \in visible)
               ELSE soft' = TRUE /\ UNCHANGED visible
-           /\ i' = i + 1 /\ UNCHANGED <<mode, sel>>
-Next == DeclareAll \/ Declare
-Terminal == IF mode = "all" THEN i = 2 ELSE i = Len(sel) + 1
+           /\ i' = i + 1 /\ UNCHANGED <<stmts, si>>
+NextStmt == /\ si <= Len(stmts) /\ Cur.mode = "sel" /\ i = Len(Cur.sel) + 1
+            /\ si' = si + 1 /\ i' = 1 /\ UNCHANGED <<stmts, visible, soft>>
+Next == DeclareAll \/ Declare \/ NextStmt
+Terminal == si = Len(stmts) + 1
 Range(s) == {s[k] : k \in DOMAIN s}
+NamesOf(st) == IF st.mode = "all" THEN Exported ELSE Exported \cap Range(st.sel)
 \* the property, stated without the machine
-VisibleExact == Terminal => visible = (IF mode = "all" THEN Exported ELSE Exported \cap Range(sel))
+VisibleExact == Terminal => visible = UNION {NamesOf(stmts[k]) : k \in 1..Len(stmts)}
 NeverOthers == visible \cap Others = {}
-OrderIrrelevant == Terminal /\ mode = "sel" => \A t \in Lists : Range(t) = Range(sel) => (Exported \cap Range(t)) = visible
-Emit == Terminal => PrintT(ToJson([k |-> "exp", mode |-> mode, sel |-> sel, visible |-> visible, soft |-> soft]))
+OrderIrrelevant == (Terminal /\ Len(stmts) = 1 /\ stmts[1].mode = "sel") => \A t \in ListsUpTo(MaxLen) : Range(t) = Range(stmts[1].sel) => (Exported \cap Range(t)) = visible
+Emit == Terminal => PrintT(ToJson([k |-> "exp", stmts |-> stmts, visible |-> visible, soft |-> soft]))
 =============================================================================
